@@ -328,6 +328,13 @@ def cell_private(cx, d, pub, sk, enc, fmt, explicit, pem, rec, srcs=("library", 
         s2 = call("%s: library decoding its own %s" % (cx.name, tag), dec, as_text(b, pem and explicit))
         expect_sk(cx, d, pub, s2, "library-made " + tag)
         ossl_reads_priv(cx, d, pub, b, pem, "library-made " + tag, explicit)
+        if not pem:
+            # RFC 5915 section 3 / SEC1 C.4: privateKey is an octet string of length ceil(log2(n)/8) - what OpenSSL writes for every scalar
+            tree = tlv_parse(bytes(b))
+            found = _find_privkey_node(tree, cx.Ln + 8) if tree else None
+            if found is None or len(found[0][found[1]][2]) != cx.Ln:
+                raise Violation("%s: the privateKey OCTET STRING of the library-made %s is %s bytes; RFC 5915 and OpenSSL use the fixed length %d for scalar %#x: %s" % (
+                    cx.name, tag, "missing" if found is None else len(found[0][found[1]][2]), cx.Ln, d, bytes(b).hex()))
     if "openssl" in srcs:
         rec.cls("src=openssl")
         o = ossl_priv(cx, d, enc, fmt, explicit, pem)
@@ -1082,6 +1089,58 @@ def structural_edit(der, sel, op):
 STRUCT_OPS = ("drop", "empty", "dup", "cut", "droptail", "retag")
 
 
+# ---- part: privoctets - the fixed-length privateKey OCTET STRING extended (lengths re-encoded) must be rejected
+
+
+def _find_privkey_node(tree, Ln):
+    """(list, index) of the ECPrivateKey.privateKey OCTET STRING: the 04 element that follows INTEGER 1 inside a SEQUENCE"""
+    for lst, i in tlv_nodes(tree):
+        nd = lst[i]
+        if nd[0] == 0x04 and nd[1] is None and i >= 1 and lst[i - 1][0] == 0x02 and lst[i - 1][2] == b"\x01" and 1 <= len(nd[2]) <= Ln:
+            return lst, i
+    return None
+
+
+def enum_privoctets(tier, shard, nshards, rng):
+    names = NAMES if tier != "quick" else ["NIST256p", "NIST521p", "SECP160r1", "BRAINPOOLP160r1", "SECP112r2", "SECP256k1"]
+    i = 0
+    for name in names:
+        for fmt in ("ssleay", "pkcs8"):
+            for variant in ("prepend00", "prepend0000", "append00", "prependFF"):
+                i += 1
+                if i % nshards == shard:
+                    yield dict(curve=name, fmt=fmt, variant=variant, x=rng.getrandbits(64))
+
+
+def check_privoctets(case, rec):
+    cx = Cx.get(case["curve"])
+    d = 1 + case["x"] % (cx.n - 1)
+    rec.cls("curve=" + case["curve"])
+    rec.cls("privoctets." + case["variant"])
+    rec.nt()
+    sk, _ = lib_keys(cx, d)
+    der = sk.to_der(format=case["fmt"])
+    tree = tlv_parse(der)
+    found = _find_privkey_node(tree, cx.Ln) if tree else None
+    if found is None:
+        raise Violation("%s %s: cannot locate the privateKey OCTET STRING in the library's own encoding %s" % (case["curve"], case["fmt"], der.hex()))
+    lst, i = found
+    content = lst[i][2]
+    lst[i][2] = {"prepend00": b"\x00" + content, "prepend0000": b"\x00\x00" + content, "append00": content + b"\x00", "prependFF": b"\xff" + content}[case["variant"]]
+    m = tlv_build(tree)
+    for decname in ("sk.from_der", "plug.priv.from_der") if case["curve"] == "NIST256p" else ("sk.from_der",):
+        status, r = try_decode(decoder(decname, cx), m)
+        if status == "ok":
+            raise Violation("%s %s: a private key whose privateKey OCTET STRING is EXTENDED to %d bytes (%s, enclosing lengths re-encoded) is accepted by %s" % (
+                case["curve"], case["fmt"], len(lst[i][2]), case["variant"], decname))
+        if status == "bad":
+            b = Buckets()
+            b.add(r, decname, m, "privateKey octet string %s" % case["variant"])
+            msg = b.settle(rec, "extended privateKey of %s" % case["curve"])
+            if msg:
+                raise Violation(msg)
+
+
 def check_generated(case, rec):
     name = NAMES[case["curve"] % len(NAMES)]
     cx = Cx.get(name)
@@ -1282,6 +1341,7 @@ def parts(tier):
     ] + ([Part("cli", check=check_cli, enum=enum_cli, quick=(8, 0), thorough=(16, 0))] if os.path.exists(OPENSSL_CLI) else []) + [
         Part("trunc", check=check_sweep, bulk=bulk_sweeps("trunc"), quick=(16, 0), thorough=(16, 0), exhaustive=True),
         Part("mutate", check=check_sweep, bulk=bulk_sweeps("mutate"), quick=(16, 0), thorough=(16, 0), exhaustive=True),
+        Part("privoctets", check=check_privoctets, enum=enum_privoctets, quick=(4, 0), thorough=(8, 0)),
         Part("struct", check=check_sweep, bulk=bulk_sweeps("struct"), quick=(8, 0), thorough=(16, 0), exhaustive=True),
         Part("bytes256", check=check_sweep, bulk=bulk_sweeps("bytes256"), quick=(8, 0), thorough=(16, 0), exhaustive=True),
         Part("tinyparams", check=check_tiny, enum=enum_tiny, quick=(4, 0), thorough=(8, 0), exhaustive=True),
